@@ -12,13 +12,15 @@ N(par, nm, kd, tg) == [parent |-> par, name |-> nm, kind |-> kd, target |-> tg]
 TREE == << N(0, <<100>>, "d", 0), N(1, <<97>>, "f", 0), N(1, <<115>>, "d", 0), N(3, <<120>>, "f", 0), N(3, <<121>>, "f", 0),
            N(1, <<101>>, "d", 0), N(1, <<108, 102>>, "l", 2), N(1, <<108, 111>>, "l", 11), N(1, <<108, 100>>, "l", 10),
            N(0, <<111>>, "d", 0), N(10, <<116>>, "f", 0), N(1, <<108, 122>>, "l", 0), N(3, <<117>>, "d", 0), N(13, <<120>>, "f", 0),
-           N(0, <<114>>, "l", 1) >>
+           N(0, <<114>>, "l", 1), N(3, <<119>>, "d", 0), N(16, <<107>>, "f", 0), N(1, <<119>>, "d", 0) >>
+\* (16 d/s/w  17 d/s/w/k  18 d/w : a removal that fails deep down, then a matched empty directory higher up)
 \* 1 d  2 d/a  3 d/s  4 d/s/x  5 d/s/y  6 d/e  7 d/lf->a  8 d/lo->o/t  9 d/ld->o  10 o  11 o/t  12 d/lz dangling  13 d/s/u  14 d/s/u/x  15 r->d
 RootChoices == { << [spell |-> <<100>>, node |-> 1] >>, << [spell |-> <<100, 47, 115>>, node |-> 3] >>,
                  << [spell |-> <<114>>, node |-> 15] >>, << [spell |-> <<100, 47, 115>>, node |-> 3], [spell |-> <<100, 47, 101>>, node |-> 6] >> }
 Pres == {[p |-> "none"], [p |-> "name", pat |-> <<120>>], [p |-> "name", pat |-> <<91, 120, 121, 93>>], [p |-> "type", c |-> "f"],
          [p |-> "type", c |-> "d"], [p |-> "type", c |-> "l"], [p |-> "name", pat |-> <<115>>], [p |-> "name", pat |-> <<108, 42>>],
-         [p |-> "name", pat |-> <<117>>], [p |-> "name", pat |-> <<91, 117, 120, 93>>]}
+         [p |-> "name", pat |-> <<117>>], [p |-> "name", pat |-> <<91, 117, 120, 93>>], [p |-> "name", pat |-> <<119>>],
+         [p |-> "name", pat |-> <<91, 117, 119, 93>>]}
 Ranges == {<<0, NoMax>>, <<1, NoMax>>, <<0, 1>>, <<2, 2>>}
 
 VARIABLES roots, mode, pre, range, picked
